@@ -45,7 +45,27 @@ def lemma_modules():
 
 def verus_verdict(tier, use_cache=True):
     """weave + verus on the whole crate; returns dict"""
-    w = W.weave(REPO, CONTRACTS, extra_modules=lemma_modules())
+    dropped = set()
+    for attempt in range(4):
+        vd = _verus_verdict_once(tier, use_cache, dropped)
+        # rustc-level errors (error codes) located inside inserted contract text: the contract no longer compiles against
+        # the changed source.  Drop those directives (recorded as lost hints) and verify the rest.
+        newdrop = set()
+        for j in vd['res'].get('diags', []):
+            if j.get('level') == 'error' and j.get('code'):
+                for sp in j.get('spans', []):
+                    ln = sp.get('line_start')
+                    if ln in vd['w'].ins_line and vd['w'].ins_line[ln] not in dropped:
+                        newdrop.add(vd['w'].ins_line[ln])
+        if not newdrop:
+            break
+        dropped |= newdrop
+    vd['compile_errors'] = [j.get('message', '')[:200] for j in vd['res'].get('diags', []) if j.get('level') == 'error' and j.get('code')]
+    return vd
+
+
+def _verus_verdict_once(tier, use_cache, dropped):
+    w = W.weave(REPO, CONTRACTS, extra_modules=lemma_modules(), drop_directives=dropped)
     fns = V.fn_table(w.text)
     rlimit = 80 if tier == 'quick' else 160
     key = hashlib.sha256((w.sha + '|rl%d' % rlimit).encode()).hexdigest()
